@@ -74,7 +74,59 @@ def html_hostile_strings(seed):
             'evaluations': n, 'failures': fails}
 
 
-QUICK_BOUNDED = [html_hostile_strings]
+def json_get_contract_bounded(seed):
+    """the assumed contract of shell.json_get (six lines of the script; every
+    JSON type fact of the deductive part rests on it): for a dictionary that
+    has `item` with a value of type `typ` it returns THAT value (the stored
+    object: callers read the entry again later), in every other case it
+    does not return (json_fatal: one diagnostic line, exit status 1).
+    Exhaustive over 5 containers x 11 values x 5 types, on the real function
+    taken from the script's start-up code (props/shellenv.py)"""
+    import contextlib
+    import io
+    from props import shellenv
+    g = shellenv.startup(['--no-config', 'f.tex'])
+    jg = g['json_get']
+    vals = [0, 5, 5.0, 5.5, True, None, 'a', '', [], [1], {}]
+    types = [int, str, dict, list, bool]
+    n, fails = 0, []
+    for v in vals:
+        for cont in ({'k': v}, {}, None, [v], 'k'):
+            for typ in types:
+                n += 1
+                want = isinstance(cont, dict) and 'k' in cont and \
+                    isinstance(cont['k'], typ)
+                err = io.StringIO()
+                try:
+                    with contextlib.redirect_stderr(err):
+                        r = jg(cont, 'k', typ)
+                    got = 'returned'
+                except SystemExit as e:
+                    got = 'exit %r' % (e.code,)
+                    r = None
+                except Exception as e:      # noqa
+                    got = 'exception %r' % (e,)
+                    r = None
+                why = None
+                if want and not (got == 'returned' and r is cont['k']):
+                    why = 'expected the stored value, %s %r' % (got, r)
+                elif not want and got != 'exit 1':
+                    why = 'expected the clean exit, %s %r' % (got, r)
+                if why:
+                    fails.append({'container': repr(cont), 'type':
+                                  typ.__name__, 'why': why})
+                    if len(fails) >= 3:
+                        break
+            if len(fails) >= 3:
+                break
+        if len(fails) >= 3:
+            break
+    return {'name': 'json_get-returns-the-stored-typed-value-or-exits',
+            'bounded': True, 'bound': '11 values x 5 containers x 5 types',
+            'evaluations': n, 'failures': fails}
+
+
+QUICK_BOUNDED = [html_hostile_strings, json_get_contract_bounded]
 
 TRUSTED = [
     'json_get(dic, item, typ) returns a value of type typ or does not return (six lines, assumed); json_fatal / tex2txt.fatal '
